@@ -616,4 +616,5 @@ def _gen_get_grad(cls_name):
 
 
 _gen_get_grad('ModuleHelper')
+GENS['kfac.layers.modules:ModuleHelper.get_grad#linear'] = GENS['kfac.layers.modules:ModuleHelper.get_grad']
 _gen_get_grad('Conv2dModuleHelper')
